@@ -371,6 +371,92 @@ def enum_d18(tier):
     return it()
 
 
+# ------------------------------------------------ recovery against the same parser without recovery
+def run_differential(case, ctx):
+    """two clauses that need no reference: (a) an input the parser accepts without recovery gives the same
+    result and no recorded error with recovery; (b) an input it rejects without recovery never comes back
+    as a result with an empty error list.  Run where the reference of run_case does not reach: overlapping
+    terminals (GLR without lexical disambiguation) and a LAYOUT rule with nested comments."""
+    from .c08 import LAYOUT_RULES, LAYOUT_TERMS
+    cfg = CFG.from_json(case["g"])
+    if case["family"] == "comments":
+        text_g = cfg.to_parglare(extra_rules=LAYOUT_RULES.strip(), extra_terminals=LAYOUT_TERMS.strip())
+    elif case["family"] == "word-comments":
+        # comments whose content is restricted (words only): the LAYOUT sub-parser itself can meet an error
+        text_g = cfg.to_parglare(
+            extra_rules="LAYOUT: LI | LAYOUT LI | EMPTY;\nLI: WS | Comment;\nComment: '(*' CItems '*)';\n"
+                        "CItems: CItems CItem | EMPTY;\nCItem: word | WS;",
+            extra_terminals="WS: /\\s+/;\nword: /[m-z]+/;")
+    else:
+        text_g = cfg.to_parglare()
+    info0 = dict(grammar=text_g)
+    mk = pgl.Grammar.from_string
+    pairs = [("GLR", pgl.GLRParser(mk(text_g)), pgl.GLRParser(mk(text_g), error_recovery=True))]
+    if case["family"] in ("comments", "word-comments"):
+        try:
+            pairs.append(("LR", pgl.Parser(mk(text_g), build_tree=True),
+                          pgl.Parser(mk(text_g), build_tree=True, error_recovery=True)))
+        except (SRConflicts, RRConflicts):
+            pass
+    dead = set()
+    for text in case["inputs"]:
+        info = dict(input=text, **info0)
+        for who, plain, rec in pairs:
+            if who in dead:
+                continue
+            a = G.run_parse_soft(plain, text, 1.0)
+            b = G.run_parse_soft(rec, text, 2.0)
+            if "timeout" in (a.kind, b.kind):
+                dead.add(who)
+                ctx.label("slow-or-nonterminating (skipped; termination is run_case's subject)")
+                continue
+            if b.kind == "other" and a.kind != "ok":
+                # (default recovery on lexically ambiguous terminals can end in DisambiguationError today;
+                # what a rejected input raises here is left to run_case's domain)
+                ctx.label("rejected input: recovery raises " + type(b.exc).__name__)
+                continue
+            if a.kind == "ok":
+                if b.kind != "ok" or rec.errors:
+                    ctx.fail("error-recorded-for-a-sentence" if b.kind == "ok" else "recovering-parser-rejects-a-sentence",
+                             parser=who, **info)
+                if who == "LR":
+                    same = T.canon(a.value) == T.canon(b.value)
+                else:
+                    n1, l1 = G.forest_len(a.value)
+                    n2, l2 = G.forest_len(b.value)
+                    same = (n1, l1) == (n2, l2) and (l1 or [a.value[i].to_str() for i in range(min(n1, 20))] ==
+                                                     [b.value[i].to_str() for i in range(min(n2, 20))])
+                if not same:
+                    ctx.fail("recovering-parser-differs-on-a-sentence", parser=who, **info)
+                ctx.label("accepted-inputs-compared")
+                ctx.nontrivial([case["g"], case["family"], text, who], sample={"grammar": text_g, "input": text})
+            elif a.kind == "syntax" and b.kind == "ok":
+                if not rec.errors:
+                    ctx.fail("non-sentence-accepted-without-recorded-error", parser=who, **info)
+                ctx.label("rejected-inputs-recovered")
+
+
+def strat_diff(tier):
+    @st.composite
+    def c(draw):
+        family = draw(st.sampled_from(["overlap", "comments", "word-comments"]))
+        if family == "overlap":
+            g = draw(gen.cfgs(max_nts=3, max_alts=3, max_rhs=3, min_terms=2, max_terms=4, terms_pool=gen.L1_TERMS))
+            inputs = list(G.char_inputs("ab ", 4))
+        else:
+            g = draw(gen.cfgs(max_nts=3, max_alts=3, max_rhs=3))
+            tt = [t[2] for t in g["terms"]]
+            if family == "comments":
+                piece = st.sampled_from(tt + tt + [" ", "/* c */", "// c\n", "/* a + ", " */", "/* x /* y */ z */", "#", "/*"])
+            else:
+                piece = st.sampled_from(tt + tt + [" ", "(* note *)", "(* some + note *)", "(* x", "*)", "(* *)",
+                                                   "(* no # te *)", "+"])
+            inputs = ["".join(draw(st.lists(piece, min_size=0, max_size=6))) for _ in range(24)]
+            inputs += [" ".join(w) for n in range(0, 3) for w in itertools.product(tt, repeat=n)]
+        return {"g": g, "family": family, "inputs": inputs}
+    return c()
+
+
 FILL = st.lists(st.sampled_from(["", " ", "\n", " \n ", "  "]), min_size=3, max_size=5)
 
 
@@ -418,6 +504,8 @@ SUBCHECKS = [
     SubCheck("random-grammars", run_case, strategy=strat_cfg, examples={"quick": 960, "thorough": 9600}),
     SubCheck("nullable-chain-family", run_case, strategy=strat_chain, examples={"quick": 320, "thorough": 3200}),
     SubCheck("d18-pinned-corpus", run_case, enumerate=enum_d18),
+    SubCheck("recovery-vs-plain-differential", run_differential, strategy=strat_diff,
+             examples={"quick": 480, "thorough": 4800}),
 ]
 
 
